@@ -7,7 +7,7 @@ META = {
     "level": "model_checking",
     "technique": "TLA+ spec of the hashdb reference-counting cache (HashDB.tla) model-checked with TLC over node DAGs with sharing; every transition of the state graphs of DAGs derived from real tries replayed on triedb/hashdb.Database (white-box projection + black-box reads); recorded random histories validated against HashDBTrace.tla",
     "text": "HashDB.tla models insert/reference/dereference/Cap/Commit as the code does them (including skipped re-inserts, uncounted children, the clamp at zero and counters left behind by flushes). TLC explores all client histories over a built-in DAG and over DAGs built from real account/storage tries (shared storage tries, shared subtrees, A->B->A re-delivery, dirty-but-equal nodes) and checks: every node below a referenced root is cached or persisted, the flush-list is exactly the cache, the size counters equal the cached contents, persisted/cached nodes have available descendants, and unpersisted garbage never stays cached. Each transition of those graphs is executed on a real hashdb.Database and the complete white-box state (counters, external children, flush order, disk, sizes) plus black-box reads of every node must match; random long histories on larger tries are validated step by step by TLC.",
-    "note": "Trusts TLC, the export accessor triedb/hashdb/verif_export_gc.go and the id mapping of harness/cmd/c21. Commit is modelled as atomic (batches below IdealBatchSize). Strict reading of the second clause (no node reachable only from released roots stays cached) is probed separately: the model shows, and the replay on hashdb confirms, that a node re-delivered after a partial flush can stay cached until the next Cap; see spec/state/NOTES.md (candidate finding, reported as pending).",
+    "note": "Trusts TLC, the export accessor triedb/hashdb/verif_export_gc.go and the id mapping of harness/cmd/c21. Commit is modelled as atomic (batches below IdealBatchSize). Strict reading of the second clause (no node reachable only from released roots stays cached) is probed separately: the model shows, and the replay on hashdb confirms, that a node re-delivered after a partial flush can stay cached until the next Cap; see spec/state/NOTES.md and known_findings.json C21-F1.",
     "design_ref": "3.3 C21",
 }
 
@@ -92,16 +92,13 @@ def probe_garbage(ctx, drv, scen, idx):
             % (garbage, " ".join(a["op"] + str(a.get("v", a.get("r", a.get("limit", "")))) for a in c["acts"])))
     replay = {"kind": "behaviour", "driver": "c21-path", "scenario": scen, "acts": c["acts"], "final_model_state": c["final"],
               "cached_garbage": garbage, "garbage_all_persisted": persisted, "seed": ctx.seed, "tier": ctx.tier}
-    if garbage and persisted:
-        # TODO-KNOWN-FINDING (C21, pending coordinator decision): a node that was flushed by Cap and is
-        # re-delivered by a later Update while its parent is still cached is never counted by that parent;
-        # once the parent is flushed too, releasing every root leaves the node cached until the next
-        # Cap/Commit.  Exactly this fingerprint (all garbage nodes already persisted) is reported as a
-        # note instead of a VIOLATION; anything else (unpersisted garbage) is a violation.
-        line = "PENDING-FINDING property=C21 re-delivered persisted node stays cached after all roots are released: nodes %s" % garbage
-        ctx.notes.append(line)
-        ctx.cov.setdefault("pending_findings", []).append(replay)
-        ctx.log(line)
+    if garbage and persisted and ctx.known_finding("C21-F1"):
+        # known_findings.json C21-F1: a node that was flushed by Cap and is re-delivered by a later Update
+        # while its parent is still cached is never counted by that parent; once the parent is flushed too,
+        # releasing every root leaves the node cached until the next Cap/Commit.  Only this fingerprint
+        # (every garbage node already persisted) is covered; unpersisted garbage is always a violation.
+        ctx.cov.setdefault("known_finding_replays", []).append(replay)
+        ctx.log("C21-F1 reproduced: nodes %s stay cached after all roots are released" % garbage)
         return
     if garbage:
         ctx.violation(desc, replay)
